@@ -130,6 +130,13 @@ def _shard_seed(seed, part, shard):
 def worker(prop, part_name, shard, nshards, tier, seed, out_path, scale=1.0):
     from .core import Violation, canonical
     from . import findings
+    cov = None
+    if os.environ.get('VERIF_COVERAGE_DIR'):
+        # measurement aid (tools/coverage_report.sh): which elfi lines the generated cases reach; never set by a registered command
+        import coverage
+        cov = coverage.Coverage(data_file=os.path.join(os.environ['VERIF_COVERAGE_DIR'], '.coverage.%s.%s.%d' % (prop, part_name, shard)),
+                                source=[os.path.join(os.environ.get('VERIF_REPO', '/repo'), 'elfi')], branch=True)
+        cov.start()
     check = _load_check(prop)
     part = check.part(part_name)
     _assert_repo()
@@ -147,6 +154,9 @@ def worker(prop, part_name, shard, nshards, tier, seed, out_path, scale=1.0):
         result['error'] = traceback.format_exc()
     result.update(stats.to_json())
     result['wall_s'] = time.time() - t0
+    if cov is not None:
+        cov.stop()
+        cov.save()
     with open(out_path, 'w') as f:
         f.write(canonical(result))
     return 0
